@@ -7,6 +7,7 @@ lvs_validator(checker, app, anchor) on legacy NDNApps over the virtual loop with
   Scenario       one world, several validator instances (one application + face each);
                  stimuli = Env actions of the spec (NewValidator, Validate, FetchReply)
 """
+import contextvars
 import logging
 from datetime import datetime, timedelta
 
@@ -212,6 +213,11 @@ class Scenario:
             self.wire[v] = []
             self.task[v] = None
         self.pending = {}      # v -> list of unanswered Interest wires
+        # An application that validates packet after packet does so from one task. All validations of an instance
+        # therefore run in ONE context (contextvars are per task): state that a validation leaves behind in a
+        # context variable is seen by the next one, as it would be in such an application.
+        self.ctx = {v: contextvars.copy_context() for v in self.insts}
+        self.serv = {n: c['serv'] for n, c in dict(world['certs']).items()}   # changes with heal()
         self.req_start = {}    # v -> number of requests before its current validation started
         self.dead = set()      # instances whose validation re-requested a certificate it was already resolving
         self.out = []
@@ -267,9 +273,19 @@ class Scenario:
         name, _, _, sig = enc.parse_data(self.mat.wire[p])
         self.cur[v] = p
         self.req_start[v] = len(self.wire[v])
-        self.task[v] = self.sess.spawn(self.validator[v](name, sig))
+        self.task[v] = self.sess.loop.create_task(self.validator[v](name, sig), context=self.ctx[v])
         self.sess.loop.settle()
         self._scan()
+
+    def heal(self, n):
+        """the certificate n, which could not be fetched so far, is published"""
+        self.serv[n] = 'yes'
+
+    def serv_of(self, v):
+        """what the world answers to the oldest unanswered certificate Interest of instance v"""
+        name, _, _, _ = enc.parse_interest(self.pending[v][0])
+        n = self.mat.abstract.get(enc.Name.to_bytes(name))
+        return self.serv.get(n, 'absent')
 
     def fetch_reply(self, v, kind):
         w = self.pending[v].pop(0)
